@@ -21,7 +21,7 @@ BOUND = ("dimension-wise: d=2 with (lmin,lmax) in {(1,2),(1,3),(2,3)}, d=3 with 
          "versions {0,1,2}, refinements-before-extend {1,2,3}, automatic_extend_split, split_single_dim; cell: d in {2,3}, lmin=lmax in {1,2,3} (d=3: {1,2}), "
          "TrapezoidalGrid with boundary; domains [0,1]^d and [-0.5,1.5]^d; driver component: 40 x (Genz family member, random smooth function, or a sum of narrow one-dimensional Gaussians at random corners), norms {1,2,inf}; "
          "a systematic core (each version x boundary on/off, no rebalancing, d=2, (1,3), corner-peak driver) plus seeded random configurations; every stop index of histories with <=8 (d=3: <=4) refinement steps, each reached by a fresh run with max_evaluations (quick: first, last and two "
-         "other stop indices); 12 probe points (8 random, 4 dyadic); seeded pseudo-random selection")
+         "other stop indices); probe points: 8 random + the full interior lattice of the initial level; three fixed anchor cases (the two known losses + the clean default) run first; seeded pseudo-random selection")
 RULE = BOUND + "; a case is one (configuration, driver, stop limit); non-trivial = at least one refinement step before the stop"
 CLAUSES = {
     "B.int.hat": "dimension-wise, standard basis: at the stop every component carrying a hierarchical hat basis function of the initial sparse-grid space has its analytic integral (rel 1e-10 / abs 1e-13)",
@@ -83,7 +83,9 @@ def build_comps(case):
     kind, basis = exact_space(case)
     r = np.random.RandomState(case["combo_seed"] % (2 ** 32))
     combos = []
-    for _ in range(3):
+    # one combination of ALL exact functions (coefficients bounded away from 0: a single lost function is always visible), two of 6
+    combos.append(["lincomb", [round(float(x), 4) for x in r.choice([-1, 1], len(basis)) * r.uniform(0.25, 1, len(basis))], list(basis)])
+    for _ in range(2):
         n = min(len(basis), 6)
         pick = sorted(r.choice(len(basis), size=n, replace=False).tolist())
         combos.append(["lincomb", [round(float(x), 4) for x in r.uniform(-1, 1, n)], [basis[i] for i in pick]])
@@ -242,11 +244,28 @@ def core_configs(ctx):
     return out
 
 
-def probe_points(ctx, a, b):
+def probe_points(ctx, a, b, lmax=3):
+    """8 random points + every interior point of the level-lmax lattice (contains the centre of every hat function of the initial space,
+    so a lost function is always seen by the interpolation clause)."""
     d = len(a)
     pts = [[ctx.rng.uniform(0.01, 0.99) for _ in range(d)] for _ in range(8)]
-    pts += [[ctx.rng.choice([0.25, 0.5, 0.75, 0.125, 0.375, 0.875]) for _ in range(d)] for _ in range(4)]
+    n = 2 ** min(lmax, 3 if d == 2 else 2)
+    pts += [list(t) for t in itertools.product([k / n for k in range(1, n)], repeat=d)]
     return [[round(a[j] + (b[j] - a[j]) * t[j], 9) for j in range(d)] for t in pts]
+
+
+def anchor_cases():
+    """Fixed (seed independent) witnesses of the two known losses; run first in every tier so that every finding key appears in every run."""
+    grid = {"type": "GlobalTrapezoidal", "boundary": True}
+    drv = ["addgauss", [200.0, 200.0], [0.9, 0.1]]
+    lat2 = [[i / 4, j / 4] for i in range(1, 4) for j in range(1, 4)]
+    lat3 = [[i / 8, j / 8] for i in range(1, 8) for j in range(1, 8)]
+    base = {"a": [0.0, 0.0], "b": [1.0, 1.0], "norm": "inf", "strategy": "dimwise", "grid": grid}
+    return [
+        {"kind": "stop", "cfg": dict(base, opts={"version": 6, "rebalancing": True}), "lmin": 1, "lmax": 2, "driver": drv, "combo_seed": 1, "probe": lat2, "max": 52, "index": 2},
+        {"kind": "stop", "cfg": dict(base, opts={"version": 2, "rebalancing": False}), "lmin": 1, "lmax": 3, "driver": drv, "combo_seed": 1, "probe": lat3, "max": 150, "index": 5},
+        {"kind": "stop", "cfg": dict(base, opts={"version": 6, "rebalancing": False}), "lmin": 1, "lmax": 3, "driver": drv, "combo_seed": 1, "probe": lat3, "max": 150, "index": 5},
+    ]
 
 
 def run(ctx):
@@ -254,6 +273,9 @@ def run(ctx):
     ctx.exhaustive = False
     quick = ctx.quick()
     rounds = 0
+    for case in anchor_cases():
+        ctx.case(case, nontrivial=True)
+        check_stop(ctx, case)
     while True:
         todo = [(c, lm, drv) for c, lm, drv in core_configs(ctx)] + [(c, lm, None) for c, lm in gen_configs(ctx, 18 if quick else 70)]
         for cfg, (lmin, lmax), drv in todo:
@@ -261,7 +283,7 @@ def run(ctx):
                 break
             d = len(cfg["a"])
             base = {"cfg": cfg, "lmin": lmin, "lmax": lmax, "driver": drv or gen_driver(ctx, d), "combo_seed": ctx.rng.randrange(10 ** 6),
-                    "probe": probe_points(ctx, cfg["a"], cfg["b"])}
+                    "probe": probe_points(ctx, cfg["a"], cfg["b"], lmax)}
             ctx.case(dict(base, kind="scout"), nontrivial=False)
             npts = None
             try:
